@@ -210,6 +210,8 @@ static void dump_tet_queries(Json &j, const TetK &m, int level) {
     if (m.has_face_bottom_up_incidences())
         for (auto hfh : m.halffaces()) {
             if (m.valence(hfh.face_handle()) != 3) continue;
+            // halfface_opposite_vertex indexes get_cell_vertices(hfh)[3]: only for halffaces of a cell with a fourth vertex
+            if (!m.is_boundary(hfh) && m.get_cell_vertices(hfh).size() != 4) continue;
             j.begin_arr(); j.val(hfh.idx()); j.val(m.halfface_opposite_vertex(hfh).idx()); j.end_arr();
         }
     j.end_arr();
